@@ -391,6 +391,12 @@ func (m *passivationManager) trigger(expected *passivationEntry) {
 		}
 
 		entry.refreshDeadline()
+		// The participant refused although its deadline was due. Retrying at once would
+		// spin this goroutine (and starve every other entry) for as long as the refusal
+		// lasts, so a deadline that is still due is pushed one full timeout ahead.
+		if now := time.Now(); !entry.deadline.After(now) {
+			entry.deadline = now.Add(entry.timeout)
+		}
 		cheaps.Push(&m.queue, entry)
 		m.mu.Unlock()
 		m.notify()
